@@ -9,7 +9,7 @@ from typing import Any
 
 from checks.C01 import _struct
 from models.shapes import all_shapes
-from models.zoo import R, build, describe, kids_of, origin_class, positions_of, reset_all, with_origin
+from models.zoo import R, build, describe, kids_of, node_at, origin_class, positions_of, reset_all, with_origin
 from vcheck.core import Family, Spec
 
 ID = "C02"
@@ -330,6 +330,62 @@ def make_symbolic_origin_harness(bases):
     return harness
 
 
+def _mutating_ops():
+    from checks import C10
+
+    return [n for n in C10._ops() if n.startswith(("replace", "dataclasses", "detach", "roundtrip", "as_obj", "from_json", "load-payload", "duplicate", "transform"))]
+
+
+def make_hash_lifetime_harness(K: int, first_op: str | None = None, trees: list[int] | None = None):
+    """`hash(node)` is constant for the node's lifetime: every pre-existing node keeps its hash,
+    stays equal to itself and stays findable in a set / dict it was put into, whatever public
+    operations (C10's alphabet: traversals, queries, duplicate, replace succeeding / rejected early /
+    rejected by a subclass validation after registration, detach, round trips ...) run on the tree."""
+    from checks import C10
+
+    def harness(e):
+        reset_all()
+        ops = C10._ops()
+        names = list(ops)
+        tno = e.pick(trees, "tree") if trees else e.choice(len(C10.TREES), "tree")
+        root = build(C10.TREES[tno])
+        paths = positions_of(C10.TREES[tno])
+        existing: dict[int, Any] = {}
+        C10._collect(root, existing)
+        C10._CTX["loaded"] = None
+        C10._CTX["bystander"] = C10.VLeaf(v=424242)
+        C10._CTX["bystander_origin"] = C10.origin("c")
+        C10._collect(C10._CTX["bystander"], existing)
+        nodes = list(existing.values())
+        hashes = [hash(n) for n in nodes]
+        as_set = set(nodes)
+        as_dict = {n: i for i, n in enumerate(nodes)}
+        first_holder = {}
+        for i, n in enumerate(nodes):
+            first_holder.setdefault((hash(n), n.id), i)  # twins inside one tree share hash and may be ==
+        history: list[str] = []
+        scenario: dict[str, Any] = {"kind": "hash-over-lifetime", "tree": describe(C10.TREES[tno]), "history": history}
+        keep = []
+        for step in range(K):
+            op = first_op if (step == 0 and first_op) else e.pick(names, f"op{step}")
+            p = paths[e.choice(len(paths), f"target{step}")]
+            history.append(f"{op} on {p or '<root>'}")
+            keep.append(ops[op](root, node_at(root, p)))
+            for i, n in enumerate(nodes):
+                if hash(n) != hashes[i]:
+                    scenario.update(node=type(n).__name__, id_now=n.id)
+                    e.fail("hash-changed", scenario=scenario)
+                if not (n == n) or (n != n):
+                    e.fail("eq-not-reflexive", scenario=scenario)
+                if n not in as_set or n not in as_dict:
+                    scenario.update(node=type(n).__name__)
+                    e.fail("hash-changed:node-lost-from-the-set-it-is-in", scenario=scenario)
+        e.distinct((tno, tuple(history)))
+        return scenario
+
+    return harness
+
+
 def _triple_pool():
     L = lambda v, o=None: R("VLeaf", {"v": v}, o)  # noqa: E731
     out = []
@@ -411,6 +467,9 @@ def spec(tier: str, seed: int) -> Spec:
     sym_bases = sym_bases + exotic_shapes()
     for k in range(0, len(sym_bases), 24):
         fams.append(Family(f"symbolic-origin-keys[{k}:{k + 24}]", make_symbolic_origin_harness(sym_bases[k : k + 24]), variables="data: one unbounded z3 integer origin key per position of x, y (and z); the real __eq__ branches on key equalities and z3 decides the feasible outcomes; oracle verdict = conjunction term, decided by z3 under the path condition; selectors: base recipe, fqn mode, third tree"))
+    fams.append(Family("hash-over-lifetime-K1", make_hash_lifetime_harness(1), variables="selectors: tree, operation, target"))
+    for op in _mutating_ops():
+        fams.append(Family(f"hash-over-lifetime-K2-first-{op}", make_hash_lifetime_harness(2, op, [0, 5] if tier == "quick" else None), variables="selectors: tree, target of the (node-creating / unregistering) first operation, second operation and target"))
     fams.append(Family("all-pairs", make_pairs_harness(all_shapes(3, 3)), variables="selectors: two recipes"))
     fams.append(Family("shared-objects", shared_harness, variables="selectors: origin per position of x and y, which positions hold one shared object, wrapper"))
     fams.append(Family("python-equal-values", value_pairs_harness, variables="selectors: two values from a pool of ==-equal / content-different values, class depth / position"))
